@@ -183,8 +183,31 @@ def r09a(ctx):
     okc = not cc_bad and bool(tok('features_concatenate'))
     ctx.ob('R09a', 'feature concatenation is a concatenation', okc,
            'is_features_concatenate worlds are is_concatenate worlds' if okc else
-           f'is_features_concatenate recognises {cc_bad} that is_concatenate does not', where(fc),
-           nontrivial=False)
+           (f'is_features_concatenate recognises {cc_bad} that is_concatenate does not' if cc_bad
+            else 'no node at all is classified as a concatenation over the features axis'),
+           where(fc), nontrivial=False)
+    # the classification of a function node does not depend on HOW its axis argument is
+    # written: f(x, 1) and f(x, dim=1) are the same operation
+    form_bad = []
+    n_forms = 0
+    for l, r in table.items():
+        if l.endswith(' kw]'):
+            twin = l[:-4] + ']'
+            if twin in table:
+                n_forms += 1
+                diff = sorted(k for k in r if r[k] != table[twin][k])
+                if diff:
+                    form_bad.append((twin, diff))
+    ctx.floor('R09a', 'positional / keyword world pairs', n_forms, 10)
+    ctx.ob('R09a', 'classification independent of positional / keyword axis', not form_bad,
+           f'{n_forms} function worlds classified identically with the axis passed positionally '
+           f'and by keyword' if not form_bad else
+           '; '.join(f'{l}: {d} differ between f(x, {l.split("dim=")[1][0]}) and '
+                     f'f(x, dim={l.split("dim=")[1][0]})' for l, d in form_bad[:3]) +
+           ': a model that writes the axis the other way gets a different width derivation '
+           '(e.g. a channel concatenation treated as a shared-input op: the consumer sees the '
+           'features of its first input only and the branches are forced to share a masker)',
+           where(fc))
     # case chains
     afc = repo.fn('add_features_calculator')
     aif = repo.fn('associate_input_features')
